@@ -513,6 +513,10 @@ func (i *IniParser) parse(ini *ini) error {
 
 	var quotesLookup = make(map[*Option]bool)
 
+	// Options which received a default from this ini (repeated entries
+	// accumulate, like repeated flags)
+	var defaulted = make(map[*Option]bool)
+
 	for name, section := range ini.Sections {
 		groups := i.matchingGroups(name)
 
@@ -554,7 +558,7 @@ func (i *IniParser) parse(ini *ini) error {
 			}
 
 			// ini value is ignored if parsed as default but defaults are prevented
-			if i.ParseAsDefaults && opt.preventDefault {
+			if i.ParseAsDefaults && opt.preventDefault && !defaulted[opt] {
 				continue
 			}
 
@@ -590,7 +594,9 @@ func (i *IniParser) parse(ini *ini) error {
 			var err error
 
 			if i.ParseAsDefaults {
+				opt.preventDefault = false
 				err = opt.setDefault(pval)
+				defaulted[opt] = true
 			} else {
 				err = opt.Set(pval)
 			}
